@@ -460,7 +460,38 @@ func deriveTripCount(loop *Loop) {
 	var isUpCounting, ivOnLeft bool
 	var isInclusive, isNEQ bool
 
-	switch binOp.Op {
+	// The formulas below describe the condition under which the loop CONTINUES. If the
+	// true branch of the exit test is the one that leaves the loop (for { if i >= n
+	// { break } ... }), the continue condition is the negation of the comparison.
+	op := binOp.Op
+	if len(exitBlock.Succs) != 2 {
+		return
+	}
+	trueStays, falseStays := loop.Blocks[exitBlock.Succs[0]], loop.Blocks[exitBlock.Succs[1]]
+	switch {
+	case trueStays && !falseStays:
+		// comparison true => next iteration: op already is the continue condition
+	case !trueStays && falseStays:
+		switch op {
+		case token.LSS:
+			op = token.GEQ
+		case token.LEQ:
+			op = token.GTR
+		case token.GTR:
+			op = token.LEQ
+		case token.GEQ:
+			op = token.LSS
+		case token.NEQ:
+			op = token.EQL
+		case token.EQL:
+			op = token.NEQ
+		}
+	default:
+		loop.TripCount = &SCEVUnknown{Value: nil}
+		return
+	}
+
+	switch op {
 	case token.LSS:
 		isUpCounting = true
 		ivOnLeft = true
